@@ -329,6 +329,8 @@ impl<'a, F: IVP> SolOut for DefaultSolOut<'a, F> {
                                 while k < t_eval.len()
                                     && (if forward { t_eval[k] < event_t } else { t_eval[k] > event_t })
                                 {
+                                    #[cfg(feature = "verif")]
+                                    crate::verif::tick_n(crate::verif::HANDLER_LOOP, 64);
                                     let in_step = if forward {
                                         t_eval[k] >= xold - self.tol
                                     } else {
@@ -360,6 +362,8 @@ impl<'a, F: IVP> SolOut for DefaultSolOut<'a, F> {
                             // A requested time emitted through the 1e-12 matching slack of an
                             // earlier step may lie beyond the event: it is not part of the result
                             while let Some(&tl) = self.t.last() {
+                                #[cfg(feature = "verif")]
+                                crate::verif::tick_n(crate::verif::HANDLER_LOOP, 64);
                                 if (forward && tl > event_t) || (!forward && tl < event_t) {
                                     self.t.pop();
                                     self.y.pop();
@@ -407,6 +411,8 @@ impl<'a, F: IVP> SolOut for DefaultSolOut<'a, F> {
             if xold == *x {
                 // Initial callback (xold == x): output at matching t_eval points
                 while i < t_eval.len() && (t_eval[i] - *x).abs() <= self.tol {
+                    #[cfg(feature = "verif")]
+                    crate::verif::tick_n(crate::verif::HANDLER_LOOP, 64);
                     self.t.push(t_eval[i]);
                     self.y.push(y.to_vec());
                     i += 1;
@@ -419,6 +425,8 @@ impl<'a, F: IVP> SolOut for DefaultSolOut<'a, F> {
                 if forward {
                     // Forward integration: t_eval[i] in (xold, x]
                     while i < t_eval.len() && t_eval[i] <= *x + self.tol {
+                        #[cfg(feature = "verif")]
+                        crate::verif::tick_n(crate::verif::HANDLER_LOOP, 64);
                         if t_eval[i] >= xold - self.tol {
                             let mut yi = vec![0.0; y.len()];
                             interpolant.unwrap().interpolate(t_eval[i], &mut yi);
@@ -430,6 +438,8 @@ impl<'a, F: IVP> SolOut for DefaultSolOut<'a, F> {
                 } else {
                     // Backward integration: t_eval is sorted decreasing, t_eval[i] in [x, xold)
                     while i < t_eval.len() && t_eval[i] >= *x - self.tol {
+                        #[cfg(feature = "verif")]
+                        crate::verif::tick_n(crate::verif::HANDLER_LOOP, 64);
                         if t_eval[i] <= xold + self.tol {
                             let mut yi = vec![0.0; y.len()];
                             interpolant.unwrap().interpolate(t_eval[i], &mut yi);
